@@ -180,7 +180,10 @@ class P:
             b = self.stmt()
             self.eat("while")
             c = self.paren()
-            self.eat(";")
+            if self.peek() == ";":          # (a macro body may leave the semicolon to its caller)
+                self.eat(";")
+            if norm(c) in ("0", "false") and not any(x[0] in ("break", "continue") and not any(g[0] in ("for", "while") for g in cs) for x, cs in walk(b)):
+                return b                    # `do { .. } while (0)`: the statements, once
             return ("dowhile", c, b)
         if x == "return":
             self.eat()
@@ -431,6 +434,8 @@ def unchecked_flags(body, producers):
                 pend = r if r is not None else pend
             pend = {v: c for v, c in pend.items() if not reads(cond, v)}
             after_once = run(bodyst, dict(pend))
+            if k == "dowhile" and not after_once:
+                return after_once            # the body ran: what it read is read (None: it always leaves)
             if after_once:
                 # second iteration: anything still pending that gets re-assigned is an overwrite
                 again = run(bodyst, dict(after_once))
@@ -875,6 +880,26 @@ class Sym:
     def expr(self, name):
         return self.s.get(name, name)
 
+    def arr(self, name, depth=0):
+        """the array value `name` holds; `const T *from = cond ? a : b;` makes `from` another name of a (or b)"""
+        if name in self.s and depth < 4:
+            v = self.s[name].replace(" ", "")
+            while v.startswith("(") and v.endswith(")"):
+                v = v[1:-1]
+            if IDENT.match(v) and v != name:
+                return self.arr(v, depth + 1)
+        return self.a.get(name, name)
+
+    def name(self, name, depth=0):
+        """the array a pointer local stands for"""
+        if name in self.s and depth < 4:
+            v = self.s[name].replace(" ", "")
+            while v.startswith("(") and v.endswith(")"):
+                v = v[1:-1]
+            if IDENT.match(v) and v != name:
+                return self.name(v, depth + 1)
+        return name
+
     def pick(self, tokens):
         """`c ? a : b` with c decided by the concrete values is a (or b)"""
         if "?" not in tokens:
@@ -951,7 +976,7 @@ class Sym:
             cp = copies(st)
             if cp:
                 for d, src, n in cp:
-                    self.a[d] = self.a.get(src, src) if n == "NEQUATIONS" else self.opaque(d)
+                    self.a[self.name(d)] = self.arr(src) if n == "NEQUATIONS" else self.opaque(d)
                 return None
             asg = assignments(toks)
             for nm, op, rhs, decl in asg:
@@ -991,7 +1016,7 @@ class Sym:
             cp = copies(st)
             if cp:
                 for d, src, n in cp:
-                    self.a[d] = self.a.get(src, src) if n == "NEQUATIONS" else self.opaque(d)
+                    self.a[self.name(d)] = self.arr(src) if n == "NEQUATIONS" else self.opaque(d)
                 return None
         if k in ("for", "while", "dowhile", "try"):
             w = written(st)
